@@ -1344,10 +1344,15 @@ def check_C14(ctx):
     bl = run_tasks(base_tasks)
     tasks = []
     afters = [[], [["try-submit-jobs", "{out}"]], [["show-status", "-o", "{out}", "-n"], ["try-submit-jobs", "{out}"]]]
+    # "final" also against a later resubmit-jobs on the canceled (and then completed) submission: nothing is handed over
+    resub_after = [["try-submit-jobs", "{out}"], ["resubmit-jobs", "{out}"], ["try-submit-jobs", "{out}"]]
     for i, (b, btr) in enumerate(zip(bases, bl)):
         for t in range(1, len(btr["moves"]) + 1, 1 if not q else 2):     # cancel issued at every scheduling step
             for a in (afters if not q else afters[:2]):
                 tasks.append(("cancel", (b, ctx.seed + i, t, a)))
+            if t % (3 if q else 1) == 1:
+                tasks.append(("cancel", (b, ctx.seed + i, t, resub_after)))
+    afters = afters + [resub_after]
     # ... and at the quiet moments: every batch has ended, jobs are still unsubmitted (max-nodes 1: a node's own round can never
     # submit), the user has run the recovery k times -- no HPC job id is recorded then
     quiet = [families.scn("ABC", groups=[families.G(size=1, procs=1)], maxnodes=1),
@@ -1650,6 +1655,12 @@ def check_C18(ctx):
               {"RetryBound", "StopsAtFirstSuccessOrPermanent", "ResultIsLastAttempt", "ScriptDirectivesExact", "ScriptDirectiveOnce",
                "ScriptRunsRunScript", "ActiveNeverFinished", "StatusRowsParsed", "SubmitResponseParsed"},
               "retry loop / submission script / status decision / submit response", tasks=tasks)
+    # "never treated as finished" at the level of whole submissions: when a round ends, every batch the scheduler still holds
+    # (pending or running) is among the recorded HPC ids -- random submissions with a node limit, unmapped display states and
+    # user rounds at any moment
+    kw = dict(n_min=3, n_max=7, groups_max=2, eager=0.1, squeue_odd=0.5)
+    trs = run_tasks([("random_hpc", (s, kw)) for s in seeds(ctx, 150 if q else 2500, 18)])
+    ctx.judge(trs, "random HPC submissions: active batches stay tracked", clauses=set(ctx.clauses.get("C18", set())) | {"ActiveBatchesTracked"})
     return ctx.finish(rule="all 2^9 set/unset combinations of the optional SLURM fields (real create_submission_script); every SLURM "
                            "state for the queried id alone and among other rows in 4 whitespace renderings plus random outputs of "
                            "<=3 rows (real _get_statuses_from_output + AsyncHpcSubmitter.is_complete), and the whole status path (real "
